@@ -1233,11 +1233,11 @@ def typed_if_undeclared_is_void(p, a, sub, i):
 
 
 def code_less(b, a):
-    """sortAliases as it is written (only parameters whose type IS a type parameter count as generic)"""
+    """sortAliases as it is written (length, number of parameters whose type contains a type parameter, Referenz count)"""
     if len(b.pat) != len(a.pat):
         return len(b.pat) > len(a.pat)
-    if b.fn.direct_generics() != a.fn.direct_generics():
-        return b.fn.direct_generics() < a.fn.direct_generics()
+    if b.fn.deep_generics() != a.fn.deep_generics():
+        return b.fn.deep_generics() < a.fn.deep_generics()
     return b.fn.refs() > a.fn.refs()
 
 
@@ -1336,9 +1336,8 @@ def judge_site(ck, p, k, i, gtoks, stoks, impl_call, m, errs_on_line, stats):
                 site, describe(chosen), [describe(a) for a, _ in r['best']]), replay_of(p, k, dict(token=i), key="resolve type-mismatched-choice"))
         else:
             doms = [b for b in r['typed'] if Spec.dominates(b, chosen)]
-            nested = chosen.fn.deep_generics() != chosen.fn.direct_generics()
             code_max = not any(code_less(b, chosen) for b in r['typed'])
-            cause = "nested-generic-uncounted" if (nested and code_max) else "other"
+            cause = "maximal-for-the-sort-key" if code_max else "other"
             why = "longer" if any(len(b.pat) > len(chosen.pat) for b in doms) else ("non-generic" if any(not b.fn.generic for b in doms) and chosen.fn.generic else "more-Referenz")
             flagv(ck, p, k, "resolve dominated-choice cause=%s" % cause,
                          "%s: chose %s although %s also matches and type-matches and must be preferred (%s)" % (site, describe(chosen), describe(doms[0]), why),
@@ -1399,6 +1398,9 @@ def check_decls(ck, p, resp, alias_toks, stats):
             if f.module == 'main' or f.public:
                 ck.violation("decl missing fn=%s" % f.name, "p%d: function %s was not declared" % (p.idx, f.name), dict(files=p.files))
             continue
+        if bool(d.get("generic")) != (f.deep_generics() > 0):
+            ck.violation("decl generic-flag fn=%s" % f.name, "p%d: %s is %sgeneric for the parser but its parameter types %s a type parameter" % (
+                p.idx, f.name, "" if d.get("generic") else "not ", "mention" if f.deep_generics() else "do not mention"), dict(files=p.files))
         got = [(tuple((t["t"], t["l"]) for t in a["toks"] if t["t"] != 1), a["neg"]) for a in d["aliases"]]
         want = []
         for a in f.aliases:
@@ -1489,7 +1491,7 @@ def alias_leg(ck, b, tt, callx, model, root, progs):
         ck.broken_obligation("extracted model driver failed: " + mp.stderr[-500:], mp.stderr)
         return progs, stats
     mres = parse_model(mp.stdout)
-    mismatches = []
+    mismatches = [l for l in mp.stdout.splitlines() if l.startswith("E ")][:1]
     for (p, k, ti, gt, st, ic, cid, errs) in todo:
         m = mres.get(cid)
         if m is None:
@@ -2112,8 +2114,8 @@ def main():
         selected_generic=stats['generic_selected'], selected_imported=stats['imported_selected'], selected_with_referenz=stats['ref_selected'],
         overload_sites=ck.cov["overload_leg"].get('sites'), overloaded=ck.cov["overload_leg"].get('overloaded'), builtin=ck.cov["overload_leg"].get('builtin'),
         statements_executed=bstats['statements'])
-    ck.finish("Props/C09.v: %d theorems (" % len(ck.cov.get("theorems", [])) + "select_maximal for every sorted permutation: partial as the code orders, full in the property's wording for populations whose generic "
-              "declarations have a directly generic parameter, refuted otherwise with a witness that is replayed on the real parser by the corpus); the extracted model, the real "
+    ck.finish("Props/C09.v: %d theorems (" % len(ck.cov.get("theorems", [])) + "select_maximal for every sorted permutation, by the sort key and in the property's wording, full; the defect of the pinned "
+              "tree - nested generic parameters not counted - is repaired in /repo 3e80d99, its witness stays in the corpus); the extracted model, the real "
               "parser and a Python oracle of the property judge the same generated call sites, overload tables/sites and negation markers; a sample of the programs is compiled and run.")
 
 
